@@ -1,5 +1,4 @@
 package main
 
-func extractStages()      {}
 func extractExtractors()  {}
 func extractPipeline()    {}
